@@ -33,7 +33,7 @@ if TYPE_CHECKING:
 
 
 from exabgp.bgp.message.notification import Notify
-from exabgp.bgp.message.update.attribute.aspath import SEQUENCE, SET, AS2Path
+from exabgp.bgp.message.update.attribute.aspath import CONFED_SEQUENCE, CONFED_SET, SEQUENCE, SET, AS2Path
 from exabgp.bgp.message.update.attribute.attribute import (
     Attribute,
     Discard,
@@ -567,32 +567,38 @@ class AttributeCollection(MutableMapping[int, Attribute]):
             self.add(cached, key)
             return
 
-        len2 = len(as2path.as_seq)
-        len4 = len(as4path.as_seq)
+        # RFC 6793 section 4.2.3: path length counts an AS_SET as one and ignores confederation segments
+        def count(path: AS2Path) -> int:
+            total = 0
+            for segment in path.aspath:
+                if isinstance(segment, SEQUENCE):
+                    total += len(segment)
+                elif isinstance(segment, SET):
+                    total += 1
+            return total
 
-        # RFC 4893 section 4.2.3
-        if len2 < len4:
-            as_seq = as2path.as_seq
+        segments: list[SET | SEQUENCE | CONFED_SEQUENCE | CONFED_SET] = []
+        missing = count(as2path) - count(as4path)
+        if missing < 0:
+            # AS4_PATH is longer than AS_PATH: it is ignored
+            segments = list(as2path.aspath)
         else:
-            as_seq = as2path.as_seq[:-len4]
-            as_seq.extend(as4path.as_seq)
-
-        len2 = len(as2path.as_set)
-        len4 = len(as4path.as_set)
-
-        if len2 < len4:
-            as_set = as4path.as_set
-        else:
-            as_set = as2path.as_set[:-len4]
-            as_set.extend(as4path.as_set)
-
-        # Build segments from merged ASN lists
-        segments: list[SET | SEQUENCE] = []
-        if as_seq:
-            segments.append(SEQUENCE(as_seq))
-        if as_set:
-            segments.append(SET(as_set))
-        aspath = AS2Path.make_aspath(segments)
+            # the leading part of AS_PATH which AS4_PATH does not cover, then AS4_PATH
+            for segment in as2path.aspath:
+                if isinstance(segment, (CONFED_SEQUENCE, CONFED_SET)):
+                    segments.append(segment)
+                    continue
+                if missing <= 0:
+                    break
+                if isinstance(segment, SET):
+                    segments.append(segment)
+                    missing -= 1
+                    continue
+                segments.append(SEQUENCE(segment[:missing]))
+                missing -= len(segments[-1])
+            segments.extend(as4path.aspath)
+        # the merged path carries 4-byte AS numbers
+        aspath = AS2Path.make_aspath(segments, asn4=True)
         self.add(aspath, key)
 
     def __hash__(self) -> int:
